@@ -7,7 +7,7 @@ SEL = ('C07.O1.del', 'C07.O1.del_twice', 'C07.O2.gc_bucket', 'C07.O2.gc_bucket_s
        'C06.O2.replace', 'C06.O2.replace_removed')
 OBLIGATIONS = [o for o in _c08.OBLIGATIONS if o.name in SEL] + [o for o in _c09.OBLIGATIONS if o.name in ('C09.O3.fini_table', 'C09.O3.shrink')]
 META = {
-    'level': 'proof',
+    'level': 'proof', 'bounded_apart': True,
     'trusted_base': LFHT_TRUSTED,
     'assumptions': ['that NO thread touches the node after the grace period needs C01 and the rely of C05 (nodes reachable only through the chain); proved here: the owner is unique per write site, the node is physically unlinked before del/replace return, bucket tables are freed only after unlink and a later grace period, destroy refuses non-empty tables and frees each order once'],
 }
